@@ -36,50 +36,47 @@ Definition round_axis (area img : Q) : option (Z * Q) :=
 Definition size_auto_h (s : bgsize) : bool := match s with BSize _ None => true | _ => false end.
 Definition size_auto_w (s : bgsize) : bool := match s with BSize None _ => true | _ => false end.
 
+(* one `round` block of the code.  on: this axis is 'round'; other_round: the other axis is 'round';
+   auto_other: the background-size of the other dimension is 'auto'.  a: this dimension, b: the other one *)
+Definition round_step (on other_round auto_other : bool) (area a b : Q) : option (Q * Q) :=
+  if on && negb (Qeq_bool a 0)                       (* repeat == 'round' and image_size *)
+  then match round_axis area a with
+       | None => None
+       | Some (_, na) =>
+           if negb other_round && auto_other
+           then bind (qdiv na a) (fun k => Some (na, b * k))
+           else Some (na, b)
+       end
+  else Some (a, b).
+
+Definition bg_size (i : intr) (size : bgsize) (pw ph : Q) : option (Q * Q) :=
+  match size with
+  | BCover => cover_sizing pw ph (ir i)
+  | BContain => contain_sizing pw ph (ir i)
+  | BSize sw sh => default_sizing i (opt_percentage sw pw) (opt_percentage sh ph) pw ph
+  end.
+
+Definition bg_place (round_on rgt : bool) (p : lenpct) (area img : Q) : Q :=
+  let ref := area - img in
+  let x := percentage p ref in
+  let x := if rgt then ref - x else x in
+  if round_on && negb (Qeq_bool img 0) then 0 else x.   (* position ignored for rounded dimensions *)
+
 (* pw ph: positioning area; rgt btm: origins 'right' / 'bottom'; px py: the offsets; rx ry: repeat *)
 Definition bg_layout (i : intr) (size : bgsize) (pw ph : Q) (rgt btm : bool) (px py : lenpct) (rx ry : rep)
   : bgres :=
   if is_zero (iw i) || is_zero (ih i) then BUnused else
-  match (match size with
-         | BCover => cover_sizing pw ph (ir i)
-         | BContain => contain_sizing pw ph (ir i)
-         | BSize sw sh => default_sizing i (opt_percentage sw pw) (opt_percentage sh ph) pw ph
-         end) with
+  match bg_size i size pw ph with
   | None => BErr
   | Some (w, h) =>
-      (* repeat-x: round (skipped for a zero width) *)
-      match (if is_round rx && negb (Qeq_bool w 0)
-             then match round_axis pw w with
-                  | None => None
-                  | Some (_, nw) =>
-                      if negb (is_round ry) && size_auto_h size
-                      then bind (qdiv nw w) (fun k => Some (nw, h * k))
-                      else Some (nw, h)
-                  end
-             else Some (w, h)) with
+      match round_step (is_round rx) (is_round ry) (size_auto_h size) pw w h with
       | None => BErr
       | Some (w, h) =>
-          match (if is_round ry && negb (Qeq_bool h 0)
-                 then match round_axis ph h with
-                      | None => None
-                      | Some (_, nh) =>
-                          if negb (is_round rx) && size_auto_w size
-                          then bind (qdiv nh h) (fun k => Some (w * k, nh))
-                          else Some (w, nh)
-                      end
-                 else Some (w, h)) with
+          match round_step (is_round ry) (is_round rx) (size_auto_w size) ph h w with
           | None => BErr
-          | Some (w, h) =>
-              (* positions refer to the final size; ignored for rounded dimensions *)
-              let refx := pw - w in
-              let refy := ph - h in
-              let x := percentage px refx in
-              let y := percentage py refy in
-              let x := if rgt then refx - x else x in
-              let y := if btm then refy - y else y in
-              let x := if is_round rx && negb (Qeq_bool w 0) then 0 else x in
-              let y := if is_round ry && negb (Qeq_bool h 0) then 0 else y in
-              BLayer w h x y
+          | Some (h, w) =>
+              (* positions refer to the final size *)
+              BLayer w h (bg_place (is_round rx) rgt px pw w) (bg_place (is_round ry) btm py ph h)
           end
       end
   end.
